@@ -335,3 +335,222 @@ func GenBlockResponse(r *vcommon.Rand, allowOther bool) BlockResponse {
 	}
 	return out
 }
+
+// ---------------------------------------------------------------- "other" values for destination-reuse round trips
+//
+// GenXxxOther(r, x) draws a value y of the same type as x that differs from x
+// in the optional / absent / variable-length parts: a decoder that does not
+// overwrite its destination completely leaves a trace of y behind when x is
+// decoded over it.
+
+// GenHeaderOther: another header whose digest list has another length (empty, shorter, longer) or other kinds.
+func GenHeaderOther(r *vcommon.Rand, x Header) Header {
+	y := GenHeader(r, true)
+	if len(y.Digest) > 12 {
+		y.Digest = y.Digest[:12]
+	}
+	switch r.Intn(4) {
+	case 0: // longer than x
+		for len(y.Digest) <= len(x.Digest) && len(y.Digest) < 80 {
+			y.Digest = append(y.Digest, GenDigestItem(r, vcommon.Pick(r, digestKinds), false))
+		}
+	case 1: // shorter than x (when x has items)
+		if len(x.Digest) > 0 && len(y.Digest) >= len(x.Digest) {
+			y.Digest = y.Digest[:r.Intn(len(x.Digest))]
+		}
+	case 2: // same length, other kinds
+		y.Digest = nil
+		for range x.Digest {
+			y.Digest = append(y.Digest, GenDigestItem(r, vcommon.Pick(r, digestKinds), false))
+		}
+	}
+	if y.Number == x.Number {
+		y.Number ^= 1
+	}
+	return y
+}
+
+// GenBodyOther: another body with another number of extrinsics.
+func GenBodyOther(r *vcommon.Rand, x Body) Body {
+	y := GenBody(r)
+	if len(y) == len(x) {
+		if len(y) > 0 && r.Bool() {
+			y = y[:r.Intn(len(y))]
+		} else {
+			y = append(y, GenData(r, false), GenData(r, false))
+		}
+	}
+	return y
+}
+
+// GenBabePreOther: mostly another variant.
+func GenBabePreOther(r *vcommon.Rand, x BabePre) BabePre {
+	y := GenBabePre(r)
+	for i := 0; i < 4 && y.Kind == x.Kind && r.Chance(3, 4); i++ {
+		y = GenBabePre(r)
+	}
+	return y
+}
+
+func otherAuths(r *vcommon.Rand, x []Auth) []Auth {
+	y := genAuths(r)
+	if len(y) == len(x) {
+		y = append(y, Auth{Key: h32(r), Weight: genU64(r)})
+	}
+	return y
+}
+
+// GenBabeConsOther: another variant, or the same variant with another number of authorities.
+func GenBabeConsOther(r *vcommon.Rand, x BabeCons) BabeCons {
+	y := GenBabeCons(r)
+	same := r.Chance(1, 3)
+	for i := 0; i < 30 && (y.Kind == x.Kind) != same; i++ {
+		y = GenBabeCons(r)
+	}
+	if y.Kind == 1 && x.Kind == 1 {
+		y.Auths = otherAuths(r, x.Auths)
+	}
+	return y
+}
+
+// GenGrandpaConsOther: another variant, or the same variant with another number of authorities.
+func GenGrandpaConsOther(r *vcommon.Rand, x GrandpaCons) GrandpaCons {
+	y := GenGrandpaCons(r)
+	same := r.Chance(1, 3)
+	for i := 0; i < 30 && (y.Kind == x.Kind) != same; i++ {
+		y = GenGrandpaCons(r)
+	}
+	if y.Kind == x.Kind && (y.Kind == 1 || y.Kind == 2) {
+		y.Auths = otherAuths(r, x.Auths)
+	}
+	return y
+}
+
+func otherSignedVotes(r *vcommon.Rand, x []SignedVote, wide bool) []SignedVote {
+	y := genSignedVotes(r, wide)
+	if len(y) == len(x) {
+		if len(y) > 0 && r.Bool() {
+			y = y[:r.Intn(len(y))]
+		} else {
+			y = append(y, GenSignedVote(r, wide))
+		}
+	}
+	return y
+}
+
+// GenJustificationOther: another number of precommits and of ancestry headers.
+func GenJustificationOther(r *vcommon.Rand, x Justification, wide bool) Justification {
+	y := GenJustification(r, wide)
+	y.Commit.Precommits = otherSignedVotes(r, x.Commit.Precommits, wide)
+	if len(y.Ancestries) == len(x.Ancestries) {
+		if len(y.Ancestries) > 0 && r.Bool() {
+			y.Ancestries = y.Ancestries[1:]
+		} else {
+			y.Ancestries = append(y.Ancestries, GenHeader(r, true))
+		}
+	}
+	return y
+}
+
+// GenGossipOther: a message of the given kind whose vectors have other lengths than x's (when x is of that kind).
+func GenGossipOther(r *vcommon.Rand, x Gossip, kind int) Gossip {
+	y := GenGossip(r, kind)
+	if kind != x.Kind {
+		return y
+	}
+	switch kind {
+	case 1:
+		if len(y.Precommits) == len(x.Precommits) {
+			s := GenSignedVote(r, false)
+			y.Precommits, y.AuthData = append(y.Precommits, s.Vote), append(y.AuthData, s)
+		}
+	case 4:
+		y.Prevotes, y.PCs = otherSignedVotes(r, x.Prevotes, false), otherSignedVotes(r, x.PCs, false)
+	}
+	return y
+}
+
+// GenBlockRequestOther: max_blocks present where x has none and (mostly) absent where x has one; the
+// other oneof member / direction half of the time.
+func GenBlockRequestOther(r *vcommon.Rand, x BlockRequest) BlockRequest {
+	y := GenBlockRequest(r)
+	if x.Max == 0 || r.Chance(1, 4) {
+		for y.Max == 0 || y.Max == x.Max {
+			y.Max = vcommon.Pick(r, []uint32{1, 2, 64, 127, 128, 129, 1 << 16, 1<<32 - 1})
+		}
+	} else {
+		y.Max = 0
+	}
+	if r.Bool() && y.FromHash == x.FromHash {
+		y.FromHash = !x.FromHash
+		if y.FromHash {
+			hh := h32(r)
+			y.Hash, y.Number = hh[:], 0
+		} else {
+			y.Hash, y.Number = nil, genU32(r)
+		}
+	}
+	if y.Fields == x.Fields {
+		y.Fields ^= 0x1f
+	}
+	return y
+}
+
+func flipOpt(r *vcommon.Rand, x *[]byte) *[]byte {
+	if x == nil || len(*x) == 0 {
+		b := r.Bytes(r.Range(1, 40))
+		return &b
+	}
+	if r.Bool() {
+		return nil
+	}
+	e := []byte{}
+	return &e
+}
+
+// GenBlockDataOther: every optional part present where x's is absent / empty and absent / empty where x's is present.
+func GenBlockDataOther(r *vcommon.Rand, x BlockData, allowOther bool) BlockData {
+	y := BlockData{Hash: h32(r)}
+	if x.Header == nil || r.Chance(1, 4) {
+		h := GenHeader(r, allowOther)
+		if x.Header != nil {
+			h = GenHeaderOther(r, *x.Header)
+		}
+		y.Header = &h
+	}
+	if x.Body == nil || len(*x.Body) == 0 || r.Chance(1, 4) {
+		bd := GenBody(r)
+		if len(bd) == 0 {
+			bd = Body{GenData(r, false)}
+		}
+		y.Body = &bd
+	} else if r.Bool() {
+		y.Body = &Body{}
+	}
+	y.Receipt, y.MessageQueue, y.Justification = flipOpt(r, x.Receipt), flipOpt(r, x.MessageQueue), flipOpt(r, x.Justification)
+	return y
+}
+
+// GenBlockResponseOther: another number of blocks (fewer, more, none); the blocks at common positions are complements.
+func GenBlockResponseOther(r *vcommon.Rand, x BlockResponse, allowOther bool) BlockResponse {
+	var n int
+	switch r.Intn(4) {
+	case 0:
+		n = len(x) + r.Range(1, 3)
+	case 1:
+		n = len(x)
+	case 2:
+		n = r.Intn(len(x) + 1)
+	default:
+		n = r.Range(0, 5)
+	}
+	y := BlockResponse{}
+	for i := 0; i < n; i++ {
+		if i < len(x) {
+			y = append(y, GenBlockDataOther(r, x[i], allowOther))
+		} else {
+			y = append(y, GenBlockData(r, allowOther))
+		}
+	}
+	return y
+}
